@@ -46,6 +46,8 @@ type simBatchMeta struct {
 
 type simPart struct {
 	leader int32
+	// follower fetching (KIP-392): index of a broker that also holds the log; the leader then sends a rack-aware consumer there
+	follower int32
 	log    []simRecord
 	// producer-id state (single producer id per scenario)
 	hasState bool
